@@ -54,8 +54,10 @@ Proof. unfold keys. rewrite map_map. apply map_ext. reflexivity. Qed.
 End AssocLemmas.
 
 (* ---- the ghost observer: three scheduling patterns under which the C01 monitor is too strict ---------- *)
-(* g_unreg : an instance was created (NewProcess) while an earlier created one was not yet registered
-             (addRunningProcess): the monitor orders instances by creation, the code by registration.
+(* g_unreg : an instance of process n was created (NewProcess) while an instance of a process that n DEPENDS ON
+             was between NewProcess and addRunningProcess (created by another request, not yet registered):
+             the monitor orders instances by creation, the code by registration.  (Creations of unrelated
+             processes may overlap freely; within Run()'s spawn loop this cannot happen at all.)
    g_newer : a dependent resolved a dependency name to an instance that is not older than itself although an
              older instance of that name exists (the dependency was restarted between the creation of the
              dependent and its lookup): the monitor only accepts instances created before the dependent.
@@ -63,36 +65,39 @@ End AssocLemmas.
              entered for it, while the observer had not yet seen the instance end (two overlapping
              onProcessEnd executions, e.g. the stop of a Pending process racing with its own Skipped end):
              the observer's o_endst has one slot, so o_ended lags behind the done flag of the code. *)
-Record gst := mkG { g_pending : option iid; g_unreg : bool; g_newer : bool; g_endov : bool }.
-Definition g0 : gst := mkG None false false false.
+Record gst := mkG { g_unregd : list iid (* created, not yet registered *); g_unreg : bool; g_newer : bool; g_endov : bool }.
+Definition g0 : gst := mkG [] false false false.
 
 Definition has_older (o : obs) (k : name) (ix : nat) : bool :=
   existsb (fun y => N.eqb (o_nm y) k && Nat.ltb (o_idx y) ix) (vals (oi o)).
 
-Definition g_step (o : obs) (g : gst) (te : tid * event) : gst :=
+(* is an instance of one of the dependencies of process n created but not yet registered *)
+Definition dep_unregistered (cs : amap pconf) (o : obs) (g : gst) (n : name) : bool :=
+  existsb (fun j => memN (o_nm (oi_get o j)) (map fst (deps (conf_of cs n)))) (g_unregd g).
+
+Definition g_step (cs : amap pconf) (o : obs) (g : gst) (te : tid * event) : gst :=
   match snd te with
-  | ENewInst i _ =>
-      mkG (Some i) (g_unreg g || match g_pending g with Some _ => true | None => false end) (g_newer g) (g_endov g)
+  | ENewInst i n =>
+      mkG (i :: g_unregd g) (g_unreg g || dep_unregistered cs o g n) (g_newer g) (g_endov g)
   | ERegAdd i _ =>
-      mkG (match g_pending g with Some j => if N.eqb i j then None else Some j | None => None end)
-          (g_unreg g) (g_newer g) (g_endov g)
+      mkG (removeN i (g_unregd g)) (g_unreg g) (g_newer g) (g_endov g)
   | EDepWait k (Some j) =>
       match get (fst te) (o_th o) with
       | Some i => let ix := o_idx (oi_get o i) in
-                  mkG (g_pending g) (g_unreg g)
+                  mkG (g_unregd g) (g_unreg g)
                       (g_newer g || (negb (Nat.ltb (o_idx (oi_get o j)) ix) && has_older o k ix)) (g_endov g)
       | None => g
       end
   | EState i s0 =>
       let x := oi_get o i in
-      mkG (g_pending g) (g_unreg g) (g_newer g)
+      mkG (g_unregd g) (g_unreg g) (g_newer g)
           (g_endov g || match o_endst x with Some s1 => negb (status_eqb s1 s0) && negb (o_ended x) | None => false end)
   | _ => g
   end.
 
 Definition gbad (g : gst) : bool := g_unreg g || g_newer g || g_endov g.
 
-Lemma gbad_mono o g te : gbad g = true -> gbad (g_step o g te) = true.
+Lemma gbad_mono cs o g te : gbad g = true -> gbad (g_step cs o g te) = true.
 Proof.
   unfold gbad, g_step. destruct te as [th e]. cbn [fst snd]. intros H.
   destruct (g_unreg g) eqn:A; destruct (g_newer g) eqn:B; destruct (g_endov g) eqn:C; try discriminate H;
@@ -103,7 +108,7 @@ Qed.
 
 (* the pair (observer, ghost) folded over a history *)
 Definition og_step (cs : amap pconf) (og : obs * gst) (te : tid * event) : obs * gst :=
-  (obs_step cs (fst og) te, g_step (fst og) (snd og) te).
+  (obs_step cs (fst og) te, g_step cs (fst og) (snd og) te).
 Definition og_final (cs : amap pconf) (evs : list (tid * event)) : obs * gst :=
   fold_left (og_step cs) evs (obs0 cs, g0).
 (* the decidable scheduling hypothesis of C01_main_partial *)
